@@ -364,11 +364,6 @@ Definition u64 : N := 18446744073709551616.
 Definition i63 : N := 9223372036854775808.
 Definition sub64 (a b : N) : N := (a + u64 - b mod u64) mod u64.        (* uint64 a - b *)
 Definition archive_sig : bytes := [68; 79; 76; 84; 65; 82; 67].         (* "DOLTARC" *)
-(* a make() of this many bytes or more kills the process (makeslice: len out of range beyond 2^48,
-   "out of memory" below; the harness worker runs under RLIMIT_AS) *)
-Definition alloc_crash : N := 4294967296.
-(* between [alloc_unsure] and [alloc_crash] the outcome depends on the machine: the model abstains *)
-Definition alloc_unsure : N := 134217728.
 
 Record afooter := { af_ver : N; af_isz : N; af_nspans : N; af_chunks : N; af_meta : N; af_fsz : N }.
 
@@ -380,10 +375,12 @@ Definition load_footer (file : bytes) : res afooter :=
        let ver := nth 212 buf 0 in
        if negb (beq_bytes (sub buf 213 7) archive_sig) then Err       (* ErrInvalidFileSignature *)
        else if 3 <? ver then Err                                        (* ErrInvalidFormatVersion; 0 passes *)
-       else Ok {| af_ver := ver;
-                  af_isz := if ver <? 3 then be (sub buf 4 4) else be (sub buf 0 8);
-                  af_nspans := be (sub buf 8 4); af_chunks := be (sub buf 12 4); af_meta := be (sub buf 16 4);
-                  af_fsz := n |}.
+       else
+         let isz := if ver <? 3 then be (sub buf 4 4) else be (sub buf 0 8) in
+         let ns := be (sub buf 8 4) in let c := be (sub buf 12 4) in let meta := be (sub buf 16 4) in
+         (* e8df418: the index size must match the counts and the three trailing sections must fit in the file *)
+         if negb (isz =? 8 * ns + 28 * c) || (n <? (if ver <? 3 then 216 else 220) + meta + isz) then Err   (* ErrInvalidChunkRange *)
+         else Ok {| af_ver := ver; af_isz := isz; af_nspans := ns; af_chunks := c; af_meta := meta; af_fsz := n |}.
 
 Definition af_footer_size (f : afooter) : N := if af_ver f <? 3 then 216 else 220.
 (* totalIndexSpan().offset, uint64 arithmetic (archive_reader.go:89) *)
@@ -404,8 +401,8 @@ Fixpoint pairs (l : list N) : list (N * N) :=
   match l with a :: b :: r => (a, b) :: pairs r | _ => [] end.
 
 (* newInMemoryArchiveIndexReader (archive_reader.go:248): four sections read at offsets derived from
-   the footer; no field is checked against the file size, the index size or the checksums.
-   Panic = an allocation sized by a footer count that the process cannot satisfy. *)
+   the (now validated) footer.  The count-sized allocations are bounded by the index size, which is
+   bounded by the file size: they are no longer a way to kill the process and are not modelled. *)
 Definition open_archive (file : bytes) : res aindex :=
   bind (load_footer file) (fun f =>
     let ns := af_nspans f in let c := af_chunks f in
@@ -413,12 +410,9 @@ Definition open_archive (file : bytes) : res aindex :=
     let o2 := (o1 + 8 * ns) mod u64 in
     let o3 := (o2 + 8 * c) mod u64 in
     let o4 := (o3 + 8 * c) mod u64 in
-    if alloc_crash <=? 8 * (ns + 1) then Panic else
     bind (read_section file o1 (8 * ns)) (fun sp =>
-    if alloc_crash <=? 8 * c then Panic else
     bind (read_section file o2 (8 * c)) (fun pf =>
     bind (read_section file o3 (8 * c)) (fun rf =>
-    if alloc_crash <=? 12 * c then Panic else
     bind (read_section file o4 (12 * c)) (fun sf =>
       Ok {| ax_f := f; ax_spans := 0 :: map be (chunks_of (N.to_nat ns) 8 sp);
             ax_prefixes := map be (chunks_of (N.to_nat c) 8 pf);
@@ -481,22 +475,25 @@ Definition afind (a : aindex) (h : bytes) : res (option N) :=
 Definition ahas (a : aindex) (h : bytes) : res bool :=
   bind (afind a h) (fun m => Ok (match m with Some _ => true | None => false end)).
 
-(* getSpanIndex / getByteSpanByID (archive_reader.go:331, :663): out-of-range ids read as 0, the
-   length is an unchecked uint64 difference *)
+(* getSpanIndex (archive_reader.go:331): out-of-range indexes read as 0 *)
 Definition span_index (a : aindex) (i : N) : N :=
   if N.of_nat (length (ax_spans a)) <=? i then 0 else nth (N.to_nat i) (ax_spans a) 0.
-Definition span_by_id (a : aindex) (id : N) : N * N :=
-  if id =? 0 then (0, 0) else (span_index a (id - 1), sub64 (span_index a id) (span_index a (id - 1))).
+
+(* checkedByteSpan (archive_reader.go:689, e8df418): ids 1..byteSpanCount; every span non-empty,
+   ascending and inside the data section; None = ErrInvalidChunkRange *)
+Definition checked_span (a : aindex) (id : N) : option (N * N) :=
+  if (id =? 0) || (af_nspans (ax_f a) <? id) then None
+  else let st := span_index a (id - 1) in let en := span_index a id in
+       if (en <=? st) || (af_data_len (ax_f a) <? en) then None else Some (st, en - st).
 
 Inductive gres := GAbsent | GOk (comp : bytes) | GErr | GPanic | GAny.
 
-(* readByteSpan (archive_reader.go:565): make([]byte, length), then ReadAtWithStats, whose deferred
-   stats.FileBytesPerRead.Sample(len(p)) asserts len(p) > 0 (metrics/histogram.go:69) *)
+(* readByteSpan (archive_reader.go:565) on a checked span: make([]byte, length) with
+   0 < length <= data section <= file size, then ReadAtWithStats (whose Sample(len) asserts len > 0).
+   The EOF branch is kept although a checked span lies inside the file. *)
 Definition read_span (file : bytes) (sp : N * N) : gres :=
   let '(off, len) := sp in
-  if alloc_crash <=? len then GPanic                                   (* makeslice / out of memory *)
-  else if alloc_unsure <=? len then GAny
-  else if len =? 0 then GPanic                                          (* Sample(0): d.PanicIfTrue(v == 0) *)
+  if len =? 0 then GPanic                                               (* Sample(0): d.PanicIfTrue(v == 0) *)
   else if (i63 <=? off) || (blen file <? off + len) then GErr
   else GOk (sub file off len).
 
@@ -510,12 +507,18 @@ Definition aget (file : bytes) (a : aindex) (h : bytes) : gres :=
   | Ok (Some idx) =>
     let '(dict, data) := nth (N.to_nat idx) (ax_refs a) (0, 0) in
     if negb (dict =? 0) then
-      match read_span file (span_by_id a dict) with
-      | GOk _ => GAny
-      | r => r
+      match checked_span a dict with
+      | None => GErr                                                    (* ErrInvalidDictionaryRange *)
+      | Some sp => match read_span file sp with
+                   | GOk _ => GAny
+                   | r => r
+                   end
       end
     else
-      match read_span file (span_by_id a data) with
+      match checked_span a data with
+      | None => GErr                                                    (* ErrInvalidChunkRange *)
+      | Some sp =>
+      match read_span file sp with
       | GOk buf =>
         if af_ver (ax_f a) <? 2 then GErr                               (* "dictionary is nil" *)
         else match new_compressed_chunk buf with
@@ -523,6 +526,7 @@ Definition aget (file : bytes) (a : aindex) (h : bytes) : gres :=
              | _ => GErr
              end
       | r => r
+      end
       end
   end.
 
@@ -541,22 +545,21 @@ Fixpoint aiter_loop (fuel : nat) (file : bytes) (a : aindex) (limit counter pos 
   | S f =>
     if af_nspans (ax_f a) <? counter then IOk (rev acc)
     else
-      let len := snd (span_by_id a counter) in
-      if i63 <=? len then IPanic                                        (* int(length) < 0: no growth, buf[:length] *)
-      else if alloc_crash <=? len then IPanic                           (* buffer doubling until the process dies *)
-      else if alloc_unsure <=? len then IAny
-      else
+      match checked_span a counter with
+      | None => IErr                                                    (* ErrInvalidChunkRange *)
+      | Some (_, len) =>
+        (* 0 < len <= data section: the scratch buffer grows to at most twice the file size *)
         let avail := N.min limit (blen file) - pos in
-        if (0 <? len) && (avail <? len) then IErr                       (* "error reading archive file" *)
+        if avail <? len then IErr                                       (* "error reading archive file" *)
         else
           let refs := firstn (N.to_nat (af_chunks (ax_f a))) (ax_refs a) in
           let is_dict := existsb (fun e => negb (fst e =? 0) && (fst e =? counter)) refs in
           if is_dict then IAny                                          (* NewDecompBundle: zstd *)
           else match last_ref_with refs snd counter with
-               | None => IPanic                                         (* "Reverse Index incomplete: ByteSpan ID not found" *)
+               | None => IErr                                           (* span referenced by no chunk: ErrInvalidChunkRange *)
                | Some cid =>
                  let '(dict, _) := nth (N.to_nat cid) (ax_refs a) (0, 0) in
-                 if negb (dict =? 0) then IPanic                        (* "Dictionary ID not found in loaded dictionaries" *)
+                 if negb (dict =? 0) then IErr                          (* dictionary not loaded: ErrInvalidDictionaryRange *)
                  else if af_ver (ax_f a) <? 2 then IErr
                  else match new_compressed_chunk (sub file pos len) with
                       | Ok comp =>
@@ -565,6 +568,7 @@ Fixpoint aiter_loop (fuel : nat) (file : bytes) (a : aindex) (limit counter pos 
                       | _ => IErr
                       end
                end
+      end
   end.
 
 Definition aiterate (file : bytes) (a : aindex) : ires :=
